@@ -81,7 +81,7 @@ class C11(Engine):
                     for ok in rng.sample(KEYS, rng.choice((0, 0, 1, 1, 1, 2))):
                         uniq[0] += 1
                         overlay[ok] = MASK if rng.random() < 0.35 else self._val(ok, tid, uniq[0])
-                ops.append({"op": "swap", "vals": vals, "overlay": overlay, "how": rng.choice(("pos", "kw", "mixed")), "exit": rng.choice(("normal", "normal", "raise")), "body": self.gen_ops(rng, tid, depth + 1, budget, uniq)})
+                ops.append({"op": "swap", "vals": vals, "overlay": overlay, "how": rng.choice(("pos", "kw", "mixed", "mixed", "samekey", "badentry")), "exit": rng.choice(("normal", "normal", "raise")), "body": self.gen_ops(rng, tid, depth + 1, budget, uniq)})
             elif r < 0.40 and depth > 0:
                 # the alias body writes into / deletes from the overlay dict it was handed
                 uniq[0] += 1
@@ -160,6 +160,7 @@ class C11(Engine):
         import xonsh.procs.specs as sx
         from xonsh.environ import DELETE_VAR
 
+        env.register("C11_INT", type="int")
         for k, v in case["init"].items():
             if v is not None:
                 env[k] = v
@@ -310,13 +311,38 @@ class C11(Engine):
                     has_ov = op["overlay"] is not None
                     ov = {k2: real(v2) for k2, v2 in op["overlay"].items()} if has_ov else None
                     probes["empty_overlay_scope"] = probes.get("empty_overlay_scope", 0) + int(has_ov and not op["overlay"])
-                    if op["how"] == "pos":
+                    bad_entry = False
+                    if op["how"] == "samekey" and rv:
+                        # the same variable in the positional mapping and as keyword: the keyword wins inside, and
+                        # afterwards the variable is as before (not what the positional mapping said)
+                        k0 = next(iter(rv))
+                        first = dict(rv)
+                        first[k0] = real("" if k0 != "MYPATH" else [])
+                        cm = env.swap(first, overlay=ov, **{k0: rv[k0]})
+                        probes["same_key_twice"] = probes.get("same_key_twice", 0) + 1
+                    elif op["how"] == "badentry" and rv:
+                        # entering fails half-way (a value its variable's type rejects): nothing may stay swapped
+                        bad_entry = True
+                        cm = env.swap(dict(rv), overlay=ov, C11_INT="not a number")
+                        probes["entry_fails_halfway"] = probes.get("entry_fails_halfway", 0) + 1
+                    elif op["how"] == "pos" or not rv:
                         cm = env.swap(rv, overlay=ov)
                     elif op["how"] == "kw":
                         cm = env.swap(overlay=ov, **rv)
                     else:
                         items = list(rv.items())
                         cm = env.swap(dict(items[:1]), overlay=ov, **dict(items[1:]))
+                    if bad_entry:
+                        try:
+                            with cm:
+                                viol("exit.restores", f"thread {state['tid']} {w}: swap(..., C11_INT='not a number') was entered although the value is invalid", path="entry")
+                        except (ValueError, TypeError):
+                            pass
+                        except Exception as e:  # noqa: BLE001
+                            viol("view.in_scope", f"thread {state['tid']} {w}: entering swap with an invalid value raised {type(e).__name__}: {e}", path="exception", others=False)
+                        for key in KEYS:
+                            probe(state, key, w + ":after-failed-entry")
+                        continue
                     try:
                         with cm:
                             state["stack"].append(layer)
